@@ -8,10 +8,19 @@ export CARGO_NET_OFFLINE=true
 mkdir -p /verif/target /verif/evidence /verif/replays
 LOG=/verif/target/build.$$.log
 if ! cargo build --release --offline --manifest-path /verif/harness/Cargo.toml >"$LOG" 2>&1; then
-  echo "MACHINERY-ERROR build failed (harness or subject does not compile); last lines:"
-  grep -E "^(error|warning: unused)" -A6 "$LOG" | head -60
-  rm -f "$LOG"
-  exit 2
+  # The toy instantiation compiles the subject's own curve_impl! macro text against harness stubs; a change to that macro
+  # (e.g. a new per-curve helper) can break only this part.  Fall back to a build without it: every check still runs its
+  # non-toy parts and says DEGRADED for what it had to skip.
+  if cargo build --release --offline --no-default-features --manifest-path /verif/harness/Cargo.toml >"$LOG.2" 2>&1; then
+    echo "DEGRADED-BUILD: the extracted curve_impl! macro did not compile over the toy fields; toy-curve parts are skipped:"
+    grep -E "^error" -A3 "$LOG" | head -12
+    rm -f "$LOG.2"
+  else
+    echo "MACHINERY-ERROR build failed (harness or subject does not compile); last lines:"
+    grep -E "^(error|warning: unused)" -A6 "$LOG.2" | head -60
+    rm -f "$LOG" "$LOG.2"
+    exit 2
+  fi
 fi
 rm -f "$LOG"
 [ "$1" = "--build" ] && exit 0
